@@ -3,7 +3,12 @@
 import json, os, sys
 HERE = os.path.dirname(os.path.dirname(os.path.abspath(__file__)))
 sys.path.insert(0, os.path.join(HERE, "lib"))
-from uv import propdefs
+from uv import propdefs, harnesses
+_allh = harnesses.infile_harnesses() + harnesses.ext_harnesses()
+
+
+def kani_serves(pid):
+    return bool(harnesses.select(_allh, pid, "thorough"))
 
 ids = [json.loads(l)["id"] for l in open(os.path.join(HERE, "properties.jsonl"))]
 checks, na = [], []
@@ -18,7 +23,7 @@ for pid in ids:
         "thorough_cmd": f"bin/check {pid} --tier thorough",
         "evidence_file": f"evidence/{pid}.json",
         "replay_cmd_template": "bin/check " + pid + " --replay {path}",
-        "engine": pd.get("engine", "kani+mirsym"),
+        "engine": pd.get("engine") or "+".join(([ "kani"] if kani_serves(pid) else []) + (["mirsym"] if pd.get("mirsym") else [])),
         "level_claimed": {
             "category": "model_checking",
             "text": pd.get("level_text", "Bounded symbolic checking of the real code: every obligation is decided by a SAT/SMT solver for all values within the stated bounds; counterexamples are replayed natively before being reported."),
@@ -38,7 +43,7 @@ m = {
         "add_only": True,
     },
     "engines": [
-        {"name": "kani", "path": "lib/uv/kani.py", "serves_properties": [c["property_id"] for c in checks], "kind_free_text": "Kani 0.68 / CBMC 6.11 bounded model checking of in-file and external harnesses over the compiled crate"},
+        {"name": "kani", "path": "lib/uv/kani.py", "serves_properties": [c["property_id"] for c in checks if kani_serves(c["property_id"])], "kind_free_text": "Kani 0.68 / CBMC 6.11 bounded model checking of in-file and external harnesses over the compiled crate"},
         {"name": "mirsym", "path": "lib/uv/mirsym", "serves_properties": [p for p in ids if propdefs.PROPS.get(p, {}).get("mirsym")], "kind_free_text": "symbolic execution of rustc MIR (regenerated from /repo each run) with z3; cvc5 cross-check in thorough tier"},
     ],
     "checks": checks,
